@@ -282,6 +282,7 @@ inductive Clause where
   | kindDiffers         -- result kind differs from the wrapper's contract
   | scDiffers           -- structured_equals_output_json_with_defaults
   | contentDiffers      -- text_fallback_iff_no_content
+  | errContent          -- the content of an error differs from the wrapper's contract
   | pubIn               -- published_schema_is_own (input)
   | pubOut              -- published_schema_is_own (output)
   | libIn (lib ref : Bool)   -- LIBDISC input (not a C16 clause)
@@ -364,8 +365,9 @@ def monContract (d : ToolD) (ci : CallIn) (o io : Obs) : Option Clause :=
     else if io.res == .ok then some .validOutRefused
     else some .kindDiffers
   else if !optCeq o.sc io.sc then some .scDiffers
-  -- the text fallback is a clause about successful results
-  else if io.res == .ok && o.content != io.content then some .contentDiffers
+  else if o.content != io.content then
+    -- the text fallback is a clause about successful results
+    if io.res == .ok then some .contentDiffers else some .errContent
   else none
 
 /-- The C16 monitor: the implementation's observation against the wrapper run with exact numbers. The
